@@ -133,9 +133,21 @@ func r121(c *Ctx, rule string) {
 	}
 	c.ob(rule, "temp-file/in-the-directory-of-the-live-path", ct.Pos(), dirOK, true, "the temporary file must be created in filepath.Dir(statePath): a rename across file systems is not atomic (and fails with EXDEV)")
 	isNameOfFile := func(v ssa.Value) bool {
-		v = resolve(v)
-		call, ok := v.(*ssa.Call)
-		return ok && calleeName(call.Common()) == "(*os.File).Name" && call.Call.Args[0] == file
+		// (a helper that returns ("", err) on failure leaves a merge of the name with the empty string: the rename is
+		// only reached on the success side, which is decided separately below)
+		n := 0
+		for _, src := range phiSources(resolve(v)) {
+			src = resolve(src)
+			if s, isK := constString(src); isK && s == "" {
+				continue
+			}
+			call, ok := src.(*ssa.Call)
+			if !ok || calleeName(call.Common()) != "(*os.File).Name" || !(call.Call.Args[0] == file || resolve(call.Call.Args[0]) == resolve(file)) {
+				return false
+			}
+			n++
+		}
+		return n >= 1
 	}
 	c.ob(rule, "rename/source-is-the-temp-file", ren.Pos(), isNameOfFile(ren.Call.Args[0]), true, "")
 	// ordered, each on the nil-error branch of the previous.  "Step X was done and succeeded" is decided by facts, not
@@ -200,25 +212,8 @@ func r121(c *Ctx, rule string) {
 		}
 		c.ob(rule, "encode/writes-the-listed-services", enc.Pos(), okArg, true, "")
 	}
-	// every failing return after creation removes the temp file
-	isRemoveTemp := func(in ssa.Instruction) bool {
-		call, ok := in.(ssa.CallInstruction)
-		return ok && calleeName(call.Common()) == "os.Remove" && isNameOfFile(call.Common().Args[0])
-	}
-	nFail := 0
-	for _, ret := range normalReturns(fn) {
-		if !dominates(ct, ret) || isNilConst(lastRet(ret)) {
-			continue
-		}
-		// the creation-failed return itself has nothing to remove
-		if _, createFailed := nilKnowledge(ret, sameAs(errResultOf(ct))); createFailed {
-			continue
-		}
-		nFail++
-		_, skips := reach(fn, ct, func(in ssa.Instruction) bool { return in == ssa.Instruction(ret) }, isRemoveTemp)
-		c.ob(rule, "failure-exit-removes-temp-file", ret.Pos(), !skips, true, "a failed snapshot must not leave its temporary file behind")
-	}
-	c.ob(rule, "has-failure-exits", fn.Pos(), nFail >= 1, false, "")
+	// (whether a FAILED snapshot removes its temporary file is hygiene, not part of C12 - a leftover temp file never
+	// replaces the live one - and is not checked)
 	// success is reported only after the rename succeeded
 	for _, ret := range normalReturns(fn) {
 		if !isNilConst(lastRet(ret)) {
